@@ -127,9 +127,9 @@ const MEDIA: [&str; 5] = [
 ];
 const QUALS: [&str; 5] = ["m", "lib", "q", "a", "mod1"];
 const HEADER_NAMES: [&str; 5] = ["ETag", "X-Id", "If-Match", "x-n", "Accept-Language"];
-const STRS: [&str; 22] = [
+const STRS: [&str; 24] = [
     "text", "yes", "no", "1e3", "~", "a: b", "- x", " lead", "trail ", "été €", "null", "true", "0x1F", "#c", "{a}", "'q'",
-    "a😉b", "😉", "価格 €",
+    "a😉b", "😉", "価格 €", "no\u{a0}break", "ends in nbsp\u{a0}",
     "A long description with accents: é è à ü — it goes on and on, well past one hundred and twenty bytes, so that anything cutting it by bytes lands inside é…",
     "x価格価格価格価格価格価格価格価格価格価格価格価格価格価格価格価格価格価格価格価格価格価格価格価格価格価格価格価格価格価格価格価格価格価格価格価格価格価格価格価格価格",
     "ééééééééééééééééééééééééééééééééééééééééééééééééééééééééééééa😉ééééééééééééééééééééééééééééééé",
